@@ -232,9 +232,9 @@ fn poly_case(ctx: &mut Ctx, rng: &mut Rng, idx: usize) {
 }
 
 pub fn run(ctx: &mut Ctx) {
-    let reps = ctx.by_tier(40u64, 8000);
+    let reps = ctx.by_tier(160u64, 8000);
     ctx.random_cases("cone", NAMES.len() as u64 * reps, |c, r| { let k = c.cur_idx() as usize; cone_case(c, r, k) });
-    let reps2 = ctx.by_tier(20u64, 3200);
+    let reps2 = ctx.by_tier(80u64, 3200);
     ctx.random_cases("poly", NAMES.len() as u64 * reps2, |c, r| { let k = c.cur_idx() as usize; poly_case(c, r, k) });
     let _ = |x: &dyn Fn() -> bool| x();
     let _: Option<&dyn Fn(&FF2) -> bool> = None;
